@@ -20,12 +20,11 @@ CLAIMED = {
 }
 
 CLAIMED["C06"] = dict(
-    category="translation_validation",
-    technique="executable Coq model of compile_rows compared syntactically with the real Core tree + first-match evaluated on the real tree for every scrutinee value, inside coqc; general Coq theorem in progress",
-    text="A Gallina model of the match compiler (strip/branch variable/bool, unit, literal, tuple, enum, struct cases, gensym threading, non-exhaustive diagnostic) is compared, tree for tree and name for name, with the Core the real compiler emits for exhaustive small and random pattern matrices; independently, the real decision tree is evaluated by the model's Core semantics against the first-match specification on every value of the scrutinee type (vm_compute). "
-         "The unbounded theorem compile_match_first_match is not yet proved, so the level claimed is per-matrix validation, not proof.",
+    technique="Coq proof by induction on fuel that the decision tree emitted by the match-compiler model evaluates to the first matching arm with its bindings, for all typed pattern matrices and values (bool/unit/int/string/tuple/enum/struct, nested, variables, wildcards); the model is compared tree-for-tree and name-for-name with the real compile_match output inside coqc, and first-match is evaluated on the real tree",
+    text="compile_match_first_match (16 proof files, no axioms): for every type environment, scrutinee type, list of arms typed against it and well-typed scrutinee value, if the model accepts the match and reaches no panic site, eval_core of the emitted tree equals first_match (same arm, same bindings up to order), Missing when no arm matches; non-exhaustive integer matches are rejected. "
+         "The model (strip, branch-variable choice, per-type splits incl. the IndexMap/fallback bookkeeping, gensym threading) is tied to compile_match.rs by exhaustive small and random matrices compiled by the real compiler: the real Core tree must equal the model's tree syntactically, and independently the real tree is checked against first-match on every value.",
     design_ref="DESIGN.md §4 C06",
-    note=TRUST + " Generic enums/structs are outside the model.",
+    note=TRUST + " Fuel sufficiency and generic (type-applied) enums/structs are outside the theorem; the Core->Go lowering of the tree is covered by C01's per-program validation.",
 )
 
 CLAIMED["C05"] = dict(
